@@ -2,7 +2,7 @@
     conclusions say something (a bond really changes, a charge really moves, the additive branch is really taken, no
     ITS is really produced).  Intermediate values are top-level Definitions (no destructuring lets in statements). *)
 From Coq Require Import List NArith ZArith Bool Lia.
-From SK Require Import lib.Tok lib.LGraph model.C03_Model proof.C03_Proof proof.C03_Glue proof.C03_Backward proof.C03_ExplicitH proof.C03_ExplicitShape proof.C03_ExplicitTotal proof.C03_Expand proof.C03_Default proof.C03_Iso proof.C03_Skeleton proof.C03_StripCounts proof.C03_Wiring proof.C03_WiringCount proof.C03_PairIds proof.C03_StripExact proof.C03_StripCor proof.C03_PairIdsComplete.
+From SK Require Import lib.Tok lib.LGraph model.C03_Model proof.C03_Proof proof.C03_Glue proof.C03_Backward proof.C03_ExplicitH proof.C03_ExplicitShape proof.C03_ExplicitTotal proof.C03_Expand proof.C03_Default proof.C03_Iso proof.C03_Skeleton proof.C03_StripCounts proof.C03_Wiring proof.C03_WiringCount proof.C03_PairIds proof.C03_StripExact proof.C03_StripCor proof.C03_PairIdsComplete proof.C03_DefaultBalance.
 Import ListNotations.
 Local Open Scope Z_scope.
 
@@ -274,3 +274,7 @@ Proof.
            (match synrule ex_tpl_x true with Some t => snd t | None => LG [] [] end)); auto.
   intros k a I. simpl in I. destruct I as [I|[I|[I|[]]]]; inversion I; subst; reflexivity.
 Qed.
+
+Example ex_default_rule_dH : simple_edgesb (gedges ex_tpl_x) = true /\ sumZ dH ex_rc_s = 0 /\
+  countZ (fun k => bonded eH ex_tpl_x k 2%N) [1%N; 3%N] = 1 /\ countZ (fun k => bonded eG ex_tpl_x k 2%N) [1%N; 3%N] = 1.
+Proof. vm_compute. repeat split; reflexivity. Qed.
